@@ -173,7 +173,21 @@ def subj_selector(b, kind, pattern):
     if p.get("progress_bar"):
         envs.append("stderr")
     skip = ["report_progress_"]
-    return dict(params=p, fitA=fitA, fitB=fitB, reads=reads, envs=envs, repeatable=True, fit_transform=(axis == 1), skip=skip)
+    alts = [{"n_to_select": rng.randint(1, max(1, lim))}, {"progress_bar": not p.get("progress_bar", False)}, {"full": not p.get("full", False)}]
+    if "score_threshold" in p:
+        alts.append({"score_threshold": None})
+    elif not p.get("full"):
+        alts.append({"score_threshold": 10 ** rng.uniform(-3, -0.3), "score_threshold_type": rng.choice(["absolute", "relative"])})
+    if fam in ("fps", "pcovfps", "voronoi"):
+        alts.append({"initialize": rng.randrange(lim)})
+        alts.append({"initialize": "random", "random_state": rng.randrange(100)})
+    if fam in ("pcovfps", "pcovcur"):
+        alts.append({"mixing": rng.choice([0.2, 0.6, 1.0])})
+    if fam in ("cur", "pcovcur"):
+        alts.append({"recompute_every": rng.choice([0, 1, 2])})
+    if fam == "voronoi" and "full_fraction" in p:
+        alts.append({"full_fraction": rng.choice([1e-9, 0.2, 0.7, 1.0])})
+    return dict(params=p, fitA=fitA, fitB=fitB, reads=reads, envs=envs, repeatable=True, fit_transform=(axis == 1), skip=skip, alts=alts)
 
 
 def subj_dch(b, kind, pattern):
@@ -194,7 +208,8 @@ def subj_dch(b, kind, pattern):
              ("score_samples", {"X": b.ref(XN, "data"), "y": b.ref(b.y_of(XN, noise=1.0), "target")})]
     if rng.random() < 0.2:
         p["tolerance"] = rng.choice([1e-10, 1e-8])
-    return dict(params=p, fitA=fitA, fitB=fitB, reads=reads, envs=["rng"], repeatable=True, fit_transform=False)
+    alts = [{"tolerance": rng.choice([1e-11, 1e-9, 1e-7])}]
+    return dict(params=p, fitA=fitA, fitB=fitB, reads=reads, envs=["rng"], repeatable=True, fit_transform=False, alts=alts)
 
 
 def subj_pcovr(b, kind, pattern):
@@ -231,7 +246,16 @@ def subj_pcovr(b, kind, pattern):
     if solver == "randomized" and rng.random() < 0.5:
         p["iterated_power"] = rng.choice([2, 5])
     rep = not (solver in ("arpack", "randomized") and p.get("random_state") is None)
-    return dict(params=p, fitA=fitA, fitB=fitB, reads=reads, envs=["rng_always"], repeatable=rep, fit_transform=True, ykey="Y")
+    alts = [{"mixing": rng.choice([0.2, 0.7, 1.0])}, {"space": rng.choice(["feature", "sample", "auto"])}, {"tol": rng.choice([1e-10, 1e-13])},
+            {"svd_solver": rng.choice(["full", "arpack", "randomized", "auto"]), "random_state": rng.randrange(1000)}]
+    if "W" not in fitB:
+        alts.append({"regressor": None})
+        alts.append({"regressor": {"$est": ["Ridge", {"alpha": 10 ** rng.uniform(-8, -2), "fit_intercept": False, "tol": 1e-12}]}})
+        alts.append({"regressor": {"$est": ["LinearRegression", {"fit_intercept": False}]}})
+        if not sq:
+            alts.append({"regressor": "precomputed"})
+            alts.append({"regressor": "precomputed"})
+    return dict(params=p, fitA=fitA, fitB=fitB, reads=reads, envs=["rng_always"], repeatable=rep, fit_transform=True, ykey="Y", alts=alts)
 
 
 def subj_kpcovr(b, kind, pattern):
@@ -261,7 +285,8 @@ def subj_kpcovr(b, kind, pattern):
         KT = b.ref({"kind": "cross", "a": _strip(XT), "b": _strip(XB), "kernel": k0}, "kernel")
         reads = [("transform", {"X": KT}), ("predict", {"X": KT}), ("transform", {"X": "$LASTX"}), ("predict", {"X": "$LASTX"})]
         rep = not (solver in ("arpack", "randomized") and p.get("random_state") is None)
-        return dict(params=p, fitA=fitA, fitB=fitB, reads=reads, envs=["rng_always"], repeatable=rep, fit_transform=False, ykey="Y")
+        alts = [{"center": not p.get("center", False)}, {"mixing": rng.choice([0.2, 0.7])}, {"center": not p.get("center", False)}]
+        return dict(params=p, fitA=fitA, fitB=fitB, reads=reads, envs=["rng_always"], repeatable=rep, fit_transform=False, ykey="Y", alts=alts)
     if solver in ("arpack", "randomized"):
         p["random_state"] = rng.randrange(1000) if (pattern == "repeat" or rng.random() < 0.6) else None
     if rng.random() < 0.4:
@@ -282,7 +307,17 @@ def subj_kpcovr(b, kind, pattern):
     reads.append(("transform", {"X": b.ref(XN, "data")}))
     reads.append(("predict", {"X": b.ref(XN, "data")}))
     rep = not (solver in ("arpack", "randomized") and p.get("random_state") is None)
-    return dict(params=p, fitA=fitA, fitB=fitB, reads=reads, envs=["rng_always"], repeatable=rep, fit_transform=False, ykey="Y")
+    alts = [{"center": not p.get("center", False)}, {"center": not p.get("center", False)}, {"mixing": rng.choice([0.2, 0.7])},
+            {"fit_inverse_transform": not p.get("fit_inverse_transform", False)}]
+    if "regressor" in p:
+        alts.append({"regressor": None})
+    else:
+        alts.append({"kernel": "rbf" if kern == "linear" else "linear", "gamma": 0.5})
+        kw2 = {"kernel": kern, "alpha": 10 ** rng.uniform(-6, -1)}
+        if kern == "rbf":
+            kw2["gamma"] = p["gamma"]
+        alts.append({"regressor": {"$est": ["KernelRidge", kw2]}})
+    return dict(params=p, fitA=fitA, fitB=fitB, reads=reads, envs=["rng_always"], repeatable=rep, fit_transform=False, ykey="Y", alts=alts)
 
 
 def subj_scaler(b, kind, pattern):
@@ -303,7 +338,8 @@ def subj_scaler(b, kind, pattern):
         fitB["sample_weight"] = b.ref(b.w(XB["shape"][0]), "weights")
     T = b.ref({"kind": "gauss", "shape": [4, XB["shape"][1]], "seed": _seed(rng)}, "data")
     reads = [("transform", {"X": "$LASTX"}), ("inverse_transform", {"X_tr": T}), ("transform", {"X": "$LASTX", "copy": True})]
-    return dict(params=p, fitA=fitA, fitB=fitB, reads=reads, envs=["rng"], repeatable=True, fit_transform=True, ft_weight=True)
+    alts = [{"with_mean": not p["with_mean"]}, {"with_std": not p["with_std"]}, {"column_wise": not p["column_wise"]}]
+    return dict(params=p, fitA=fitA, fitB=fitB, reads=reads, envs=["rng"], repeatable=True, fit_transform=True, ft_weight=True, alts=alts)
 
 
 def subj_knorm(b, kind, pattern):
@@ -324,7 +360,8 @@ def subj_knorm(b, kind, pattern):
     FT = b.X(rng.randint(1, 6), m, ["gauss"])
     KT = {"kind": "cross", "a": _strip(FT), "b": _strip(FB), "kernel": kern}
     reads = [("transform", {"K": b.ref(KT, "kernel")}), ("transform", {"K": "$LASTK"})]
-    return dict(params=p, fitA=fitA, fitB=fitB, reads=reads, envs=["rng"], repeatable=True, fit_transform=True, xkey="K", ft_weight=True)
+    alts = [{"with_center": not p["with_center"]}, {"with_trace": not p["with_trace"]}]
+    return dict(params=p, fitA=fitA, fitB=fitB, reads=reads, envs=["rng"], repeatable=True, fit_transform=True, xkey="K", ft_weight=True, alts=alts)
 
 
 def subj_skc(b, kind, pattern):
@@ -346,7 +383,8 @@ def subj_skc(b, kind, pattern):
         fitB["sample_weight"] = b.ref(b.w(nB), "weights")
     FT = b.X(rng.randint(1, 5), m, ["gauss"])
     reads = [("transform", {"Knm": b.ref({"kind": "cross", "a": _strip(FT), "b": actB, "kernel": kern}, "kernel")})]
-    return dict(params=p, fitA=fitA, fitB=fitB, reads=reads, envs=["rng"], repeatable=True, fit_transform=True, xkey="Knm", ft_weight=True)
+    alts = [{"with_center": not p["with_center"]}, {"with_trace": not p["with_trace"]}]
+    return dict(params=p, fitA=fitA, fitB=fitB, reads=reads, envs=["rng"], repeatable=True, fit_transform=True, xkey="Knm", ft_weight=True, alts=alts)
 
 
 def subj_ridge(b, kind, pattern):
@@ -377,7 +415,10 @@ def subj_ridge(b, kind, pattern):
     fitB = {"X": b.ref(XB, "data"), "y": b.ref(b.y_of(XB, pdim, squeeze=False), "target")}
     reads = [("predict", {"X": "$LASTX"})]
     rep = not (p.get("shuffle", True) and p.get("random_state") is None)
-    return dict(params=p, fitA=fitA, fitB=fitB, reads=reads, envs=["rng_always", "joblib"], repeatable=rep, fit_transform=False)
+    alts = [{"regularization_method": "cutoff" if p["regularization_method"] == "tikhonov" else "tikhonov"},
+            {"scoring": rng.choice(["neg_root_mean_squared_error", "r2", "neg_mean_squared_error"])}, {"n_jobs": rng.choice([None, 1, 2, 3])},
+            {"shuffle": True, "random_state": rng.randrange(1000)}, {"shuffle": False}]
+    return dict(params=p, fitA=fitA, fitB=fitB, reads=reads, envs=["rng_always", "joblib"], repeatable=rep, fit_transform=False, alts=alts)
 
 
 def subj_orth(b, kind, pattern):
@@ -392,7 +433,9 @@ def subj_orth(b, kind, pattern):
     fitA = {"X": b.ref(XA, "data"), "y": b.ref({"kind": "gauss", "shape": [XA["shape"][0], t], "seed": _seed(rng)}, "target")}
     fitB = {"X": b.ref(XB, "data"), "y": b.ref({"kind": "gauss", "shape": [XB["shape"][0], tB], "seed": _seed(rng)}, "target")}
     reads = [("predict", {"X": "$LASTX"})]
-    return dict(params=p, fitA=fitA, fitB=fitB, reads=reads, envs=["rng"], repeatable=True, fit_transform=False)
+    alts = [{"use_orthogonal_projector": not p["use_orthogonal_projector"]}, {"use_orthogonal_projector": not p["use_orthogonal_projector"]},
+            {"linear_estimator": None if "linear_estimator" in p else {"$est": ["Ridge", {"alpha": 1e-6, "fit_intercept": False}]}}]
+    return dict(params=p, fitA=fitA, fitB=fitB, reads=reads, envs=["rng"], repeatable=True, fit_transform=False, alts=alts)
 
 
 def subj_kde(b, kind, pattern):
@@ -504,6 +547,12 @@ def gen_class_trace(b, kind, pattern):
             ops.extend(_reads_ops("e0", s, s["fitA"], b)[:2])  # populate lazy caches
         if rng.random() < 0.1:
             ops.append({"op": "RESTART", "obj": "e0"})
+        if s.get("alts") and rng.random() < 0.3:
+            # the caller re-parameterises the fitted estimator before fitting it again
+            patch = dict(rng.choice(s["alts"]))
+            if rng.random() < 0.25 and len(s["alts"]) > 1:
+                patch.update(rng.choice(s["alts"]))
+            ops.append({"op": "SET", "obj": "e0", "params": patch, "how": "setattr" if rng.random() < 0.2 else "set_params"})
         ops.append({"op": "FIT", "obj": "e0", "args": s["fitB"], "env": b.env(kind, s["params"], allow)})
         ops.extend(_reads_ops("e0", s, s["fitB"], b))
         if rng.random() < 0.25:
@@ -756,6 +805,12 @@ def reductions(trace):
                     if o2["op"] == "NEW" and o2["kind"] == o["kind"] and k in o2["params"]:
                         del o2["params"][k]
                 yield used_heap(t)
+        elif o["op"] == "SET":
+            if len(o["params"]) > 1:
+                for k in list(o["params"]):
+                    t = copy.deepcopy(trace)
+                    del t["ops"][i]["params"][k]
+                    yield used_heap(t)
         elif o["op"] in ("FIT", "CALL", "FN"):
             for k in list(o["args"]):
                 if k in ("X", "K", "Knm", "Kmm", "__pos__", "Y", "x1"):
